@@ -127,7 +127,7 @@ pub fn table_row(f: &[&str]) -> String {
 pub fn dispatch(kind: &str, f: &[&str]) -> Option<String> {
     Some(match kind {
         "tbl" => table_row(f),
-        "c02" => events(f),
+        "c02" | "c02big" => events(f),
         "c02after" => events_after(f),
         _ => return None,
     })
